@@ -255,6 +255,7 @@ def skel_asyncRunnerStep : List String := [
   ".return"]
 
 def skel_asyncRunnerStart : List String := [
+  "defer ar.gen.dropMarkerOnPanic",
   "res, resType, ex := ar.gen.step()",
   "if ex != nil"]
 
@@ -262,15 +263,27 @@ def skel_ExceptionError : List String := [
   "if e == nil",
   ".return \"<nil>\"",
   "if e.val != nil",
-  ".b.WriteString(e.val.String())",
+  ".b.WriteString(e.valueString())",
   "return b.String()"]
 
 def skel_ExceptionString : List String := [
   "if e == nil",
   ".return \"<nil>\"",
   "if e.val != nil",
-  ".b.WriteString(e.val.String())",
+  ".b.WriteString(e.valueString())",
   "return b.String()"]
+
+def skel_ExceptionValueString : List String := [
+  "if !ok",
+  ".return e.val.String()",
+  "defer func() { if x := recover",
+  ".func{",
+  "..if x := recover(); x != nil",
+  "...s = \"[exception value of class \" + obj.ClassName() + \" cannot be converted to a string]\"",
+  ".}",
+  "if ex := obj.runtime.vm.try(func() { s = obj.String() }); ex != nil",
+  ".s = \"[exception value of class \" + obj.ClassName() + \" cannot be converted to a string]\"",
+  "return"]
 
 def skel_underscoreCall : List String := [
   "vm.pushTryFrame(tryPanicMarker, -1)",
@@ -347,6 +360,7 @@ def uncatchableTypes : List String := [
 
 def recoverSites : List String := [
   "builtin_typedarrays.go:allocByteSlice",
+  "runtime.go:*Exception.valueString",
   "runtime.go:compileAST",
   "runtime.go:*Runtime.RunProgram",
   "runtime.go:*Runtime.runWrapped",
@@ -390,6 +404,7 @@ theorem tie_skel_asyncRunnerStep : GojaModel.Generated.C14.skel_asyncRunnerStep 
 theorem tie_skel_asyncRunnerStart : GojaModel.Generated.C14.skel_asyncRunnerStart = Expected.skel_asyncRunnerStart := by rfl
 theorem tie_skel_ExceptionError : GojaModel.Generated.C14.skel_ExceptionError = Expected.skel_ExceptionError := by rfl
 theorem tie_skel_ExceptionString : GojaModel.Generated.C14.skel_ExceptionString = Expected.skel_ExceptionString := by rfl
+theorem tie_skel_ExceptionValueString : GojaModel.Generated.C14.skel_ExceptionValueString = Expected.skel_ExceptionValueString := by rfl
 theorem tie_skel_underscoreCall : GojaModel.Generated.C14.skel_underscoreCall = Expected.skel_underscoreCall := by rfl
 theorem tie_skel_RunProgram : GojaModel.Generated.C14.skel_RunProgram = Expected.skel_RunProgram := by rfl
 theorem tie_skel_wrapReflectErr : GojaModel.Generated.C14.skel_wrapReflectErr = Expected.skel_wrapReflectErr := by rfl
@@ -469,5 +484,14 @@ theorem tie_handleThrow_closeIters :
 /-- the classifier is `errors.As` (whole wrap tree), not an errors.Unwrap loop -/
 theorem tie_isUncatchable_is_errorsAs :
     GojaModel.Generated.C14.skel_isUncatchableException = ["return errors.As(e, &u)"] := by decide
+
+/-- Error() and String() stringify through the guarded valueString() (vm.try + deferred recover): the model's
+`errorPanics` is constantly false. -/
+theorem tie_error_method_guarded :
+    GojaModel.Generated.C14.skel_ExceptionError.contains ".b.WriteString(e.valueString())" = true ∧
+    GojaModel.Generated.C14.skel_ExceptionString.contains ".b.WriteString(e.valueString())" = true ∧
+    GojaModel.Generated.C14.skel_ExceptionValueString.contains "..if x := recover(); x != nil" = true ∧
+    (∀ ex : Exc, ex.errorPanics = false) := by
+  refine ⟨by decide, by decide, by decide, fun _ => rfl⟩
 
 end GojaModel.C14.Tie
